@@ -1,12 +1,73 @@
 /-
 ArtModel.Ops.Bartmap — protocol handler(s) for the `bartmap` operation family.
 Core Lean only.  `none` = malformed line (the driver prints `bad-op`).
+
+`bartmap rc NA NB ROWLABELS COLLABELS`
+    labels are comma-joined naturals (`-` = empty).  Answer:
+    `rows=<m> cols=<m> cells=<c>` where `<m>` is the indicator matrix, one bit
+    string per bicluster joined by `|` (`-` = no biclusters), in the order of
+    `rows_` / `columns_`; `<c>` has one `|`-separated group per matrix row, each a
+    comma-joined list with one entry per matrix column: the index of the unique
+    bicluster containing that cell, or the error marker `!n` when the cell lies
+    in `n ≠ 1` biclusters.
+
+`bartmap fit AMODE AINVs ARHOs AEPS ASTEPS AXS VETOTAB BMODE BINVs BRHOs BEPS BSTEPS BXS`
+    the whole of `BARTMAP.fit` on table-driven kernels (`Drv.tabKernel`): per
+    side the recorded activations / match values (`STEPS`, `;`-joined `T/M` as in
+    `hist base tab`) and the samples `i:ncat`; `VETOTAB` = `|`-joined bit strings,
+    entry `[k][c]` = 1 when the correlation test refused category `c` for matrix
+    row `k`.  Answer: `la=<row labels> na=<n> lb=<column labels> nb=<n>` followed
+    by the three fields of `rc`.
 -/
 import ArtModel.Driver
+import ArtModel.Bartmap
 
 namespace Art.Ops
+open Art.Drv
+
+def showBits (m : List (List Bool)) : String :=
+  if m.isEmpty then "-" else "|".intercalate (m.map (fun r => String.ofList (r.map (fun b => if b then '1' else '0'))))
+
+def showCells (rows cols : List (List Bool)) (nr nc : Nat) : String :=
+  if nr == 0 then "-" else
+  "|".intercalate ((List.range nr).map (fun i =>
+    if nc == 0 then "-" else
+    ",".intercalate ((List.range nc).map (fun j =>
+      match cellBiclusters rows cols i j with
+      | [k] => toString k
+      | l => s!"!{l.length}"))))
+
+def showRC (rows cols : List (List Bool)) (nr nc : Nat) : String :=
+  s!"rows={showBits rows} cols={showBits cols} cells={showCells rows cols nr nc}"
 
 /-- handler for lines starting with `bartmap `; `a` = the remaining space-separated fields -/
-def bartmap (_a : List String) : Option String := none
+def bartmap (a : List String) : Option String := do
+  match a with
+  | ["rc", na, nb, rl, cl] =>
+    let na ← na.toNat?
+    let nb ← nb.toNat?
+    let rl ← (splitList rl).mapM String.toNat?
+    let cl ← (splitList cl).mapM String.toNat?
+    some (showRC (rowsOf na nb rl) (columnsOf na nb cl) rl.length cl.length)
+  | ["fit", amode, ainv, arho, aeps, asteps, axs, vt, bmode, binv, brho, beps, bsteps, bxs] =>
+    let amode ← parseMT amode
+    let ainv ← (splitList ainv).mapM parseBool
+    let arho ← (splitList arho).mapM (fun s => (parseKey s).join)
+    let aeps ← parseFloatBits aeps
+    let atab ← (splitList asteps ";").mapM parseTabStep
+    let axs ← parseTabXs axs
+    let vt ← parseVetoTab vt
+    let bmode ← parseMT bmode
+    let binv ← (splitList binv).mapM parseBool
+    let brho ← (splitList brho).mapM (fun s => (parseKey s).join)
+    let beps ← parseFloatBits beps
+    let btab ← (splitList bsteps ";").mapM parseTabStep
+    let bxs ← parseTabXs bxs
+    let veto : Nat × Nat → Nat → Bool := fun x c => ((vt[x.1]?).getD []).getD c false
+    let r := bartmapFit (tabKernel atab) (vecCfg amode ainv aeps) arho
+      (tabKernel btab) (vecCfg bmode binv beps) brho veto axs bxs
+    some (s!"la={showNats r.a.labels} na={r.a.W.length} lb={showNats r.b.labels} nb={r.b.W.length} "
+      ++ showRC r.rows r.cols r.a.labels.length r.b.labels.length)
+  | _ => none
 
 end Art.Ops
